@@ -196,7 +196,7 @@ class RealRun(Harness):
     prop, ob = PROP, 'O3'
     width = 64
     BAD = ['refused', 'unresolvable', 'silent', 'early-close', 'bad-block-size', 'truncated-kexinit', 'garbage-kexinit', 'probe-garbage', 'type-byte-only-kexinit', 'probe-type-byte-only',
-           'ssh1-fallback', 'unresolvable-idna', 'packet-text-forges-ruler', 'header-forges-ruler']
+           'ssh1-fallback', 'unresolvable-idna', 'packet-text-forges-ruler', 'header-forges-ruler', 'gex-probes-refused']
 
     def __init__(self, bad, pos, json, verbose=False, colors=False, rev=False):
         # rev: the targets finish in the reverse of the order in which they are listed (several worker threads)
@@ -229,6 +229,10 @@ class RealRun(Harness):
             bad = [AE.Conn([BANNER, kp[:20] + inp['x']], 'close')]
         elif b == 'garbage-kexinit':
             bad = [AE.Conn([BANNER, AE.frame(bytes([20]) + b'\x00' * 16 + b'\xff\xff\xff\xff' + inp['x'])], 'close')]
+        elif b == 'gex-probes-refused':
+            # answers the first connection (offering group exchange), then refuses every further connection while the probes reconnect (MaxStartups, fail2ban)
+            kp3 = kexinit_pkt(['curve25519-sha256', 'diffie-hellman-group-exchange-sha256'], ['unknown-key'])
+            bad = [AE.Conn([BANNER, kp3])] + [AE.Conn([], refuse=True) for _ in range(20)]
         elif b == 'packet-text-forges-ruler':
             # the peer closes mid-packet; what it sent so far is text of its choosing: a line break, the 80-dash ruler that separates two targets' blocks and a
             # made-up target line (the first four bytes pass the reader's length check)
@@ -327,7 +331,7 @@ class RealRun(Harness):
             # nothing a peer sends can pass for the ruler between two blocks or for a block's target line
             yield 'at-most-one-target-line-per-block', obs['target_lines'] <= 2      # (a target that cannot be connected to is named in its error line instead)
             yield 'each-block-names-its-target', obs['good'] and obs['bad']
-        yield 'exit-status-ranked-max', r in (1, -1) or ((self.bad.startswith('probe-') or self.bad == 'header-forges-ruler') and r in (0, 2, 3))
+        yield 'exit-status-ranked-max', r in (1, -1) or ((self.bad.startswith('probe-') or self.bad in ('header-forges-ruler', 'gex-probes-refused')) and r in (0, 2, 3))
         if self.bad in ('refused', 'unresolvable', 'silent', 'unresolvable-idna'):
             # a target that cannot be reached is a connection error (the healthy target here rates below it), reported as such - not an internal error
             yield 'unreachable-target-is-a-connection-error', r == 1 and not obs['traceback']
